@@ -98,6 +98,18 @@ def do_replay(prop, pid, path):
     return 0
 
 
+def norm_name(name: str) -> str:
+    """Obligation name without path numbers and line offsets (stable under edits that move lines)."""
+    return re.sub(r"@L\d+", "@L", re.sub(r"#\d+", "", name))
+
+
+def load_baseline(pid):
+    p = os.path.join(ROOT, "baseline", f"{pid}.txt")
+    if not os.path.exists(p):
+        return None
+    return {ln.strip() for ln in open(p) if ln.strip()}
+
+
 def obligation_selected(prop, name: str) -> bool:
     sel = getattr(prop, "SELECT", None)
     if sel is None:
@@ -231,6 +243,26 @@ def run_property(prop, pid, tier, seed, args, t0):
             violation_files.append(path)
         else:
             undecided.append((o, r))
+    # An obligation that is in the committed baseline (it was discharged on the unchanged tree) and cannot be discharged
+    # now, even with three times the budget and another seed, FAILS: the violation is reported with the solver's output.
+    baseline = load_baseline(pid)
+    if undecided and baseline is not None and not args.update_baseline:
+        cand = [(o, r) for o, r in undecided if norm_name(o.name) in baseline]
+        if cand:
+            again = solve.discharge([o for o, _ in cand], budget * 3, seed + 7)
+            for (o, r), r2 in zip(cand, again):
+                if r2["verdict"] == "proved":
+                    undecided.remove((o, r))
+                    proved.append((o, r2))
+                    unknown.remove((o, r))
+                    continue
+                undecided.remove((o, r))
+                path = os.path.join("replay", safe(f"{pid}__{o.name}.json"))
+                rec = {"property": pid, "obligation": o.name, "function": o.func, "verdict": "failed (discharged on the unchanged tree, not dischargeable now)",
+                       "solver": r2, "first_attempt": r, "line": o.line, "goal": str(o.goal)[:2000]}
+                json.dump(rec, open(os.path.join(ROOT, path), "w"), indent=1, default=str)
+                lines.append(f"VIOLATION property={pid} replay={path} no-failing-input-found")
+                violation_files.append(path)
     extra = 0
     for idx, f in enumerate(failures):
         if match_known(f.get("id", "") + " " + (f.get("function") or "") + " " + str(f.get("observed", ""))) is not None:
@@ -314,6 +346,11 @@ def run_property(prop, pid, tier, seed, args, t0):
     os.makedirs(os.path.join(ROOT, "evidence"), exist_ok=True)
     json.dump(ev, open(os.path.join(ROOT, "evidence", f"{pid}.json"), "w"), indent=1, default=str)
     # ------------------------------------------------------------------ 5. verdict
+    if args.update_baseline and not lines:
+        os.makedirs(os.path.join(ROOT, "baseline"), exist_ok=True)
+        with open(os.path.join(ROOT, "baseline", f"{pid}.txt"), "w") as f:
+            for nm in sorted({norm_name(o.name) for o, _ in proved}):
+                f.write(nm + "\n")
     print(f"{pid}: {len(proved)}/{n_obl} obligations discharged, {len(refuted)} refuted, {len(unknown)} undecided; "
           f"bounded: {evals} evaluations, {len(failures)} failures; {round(time.time() - t0, 1)}s")
     if args.verbose:
